@@ -570,12 +570,39 @@ pub enum ReplayOutcome {
 /// run a replay in a child process so that aborts are observed, not suffered
 pub fn replay_in_child(id: &str, path: &Path) -> ReplayOutcome {
     let exe = std::env::current_exe().unwrap();
-    let out = std::process::Command::new(exe)
+    let mut child = std::process::Command::new(exe)
         .arg("replay-child")
         .arg(id)
         .arg(path)
-        .output()
+        .stdout(std::process::Stdio::piped())
+        .stderr(std::process::Stdio::piped())
+        .spawn()
         .expect("spawn replay child");
+    // a replayed deadlock must not hang the check: same sound criterion as for workers
+    let t0 = Instant::now();
+    let mut last_probe = Instant::now();
+    loop {
+        match child.try_wait() {
+            Ok(Some(_)) => break,
+            Ok(None) => {}
+            Err(_) => break,
+        }
+        if t0.elapsed() > Duration::from_secs(10) && last_probe.elapsed() > Duration::from_secs(5) {
+            last_probe = Instant::now();
+            if process_blocked_forever(child.id()) {
+                let _ = child.kill();
+                let _ = child.wait();
+                return ReplayOutcome::Fail(Failure::new("blocked-forever", "the replayed case deadlocks: every thread waits on a futex without timeout, no cpu consumed"));
+            }
+        }
+        if t0.elapsed() > Duration::from_secs(1800) {
+            let _ = child.kill();
+            let _ = child.wait();
+            return ReplayOutcome::Died("timeout after 1800 s (inconclusive)".into());
+        }
+        std::thread::sleep(Duration::from_millis(20));
+    }
+    let out = child.wait_with_output().expect("replay child output");
     let stdout = String::from_utf8_lossy(&out.stdout).to_string();
     match out.status.code() {
         Some(0) => ReplayOutcome::Pass,
@@ -693,6 +720,41 @@ pub fn run_check<P: Property>(tier: Tier) -> i32 {
     finish::<P>(tier, seed, t0, summary)
 }
 
+/// Sound evidence that a process can never make progress again (DESIGN 2.6): every thread sits
+/// in a futex wait without timeout (nobody is left to wake anybody in a closed process) and the
+/// process consumed no cpu between three samples one second apart.
+pub fn process_blocked_forever(pid: u32) -> bool {
+    let sample = || -> Option<(bool, u64)> {
+        let mut all_futex = true;
+        let mut ticks = 0u64;
+        let mut n = 0;
+        for t in std::fs::read_dir(format!("/proc/{pid}/task")).ok()?.flatten() {
+            n += 1;
+            let sc = std::fs::read_to_string(t.path().join("syscall")).ok()?;
+            let f: Vec<&str> = sc.split_whitespace().collect();
+            // x86_64: futex = 202; 4th argument = timeout pointer (0 = wait forever)
+            let is_futex_forever = f.first() == Some(&"202") && f.get(4).map_or(false, |a| *a == "0x0");
+            if !is_futex_forever {
+                all_futex = false;
+            }
+            let stat = std::fs::read_to_string(t.path().join("stat")).ok()?;
+            let rest = stat.rsplit_once(')')?.1;
+            let s: Vec<&str> = rest.split_whitespace().collect();
+            ticks += s.get(11).and_then(|x| x.parse::<u64>().ok()).unwrap_or(0) + s.get(12).and_then(|x| x.parse::<u64>().ok()).unwrap_or(0);
+        }
+        if n == 0 {
+            return None;
+        }
+        Some((all_futex, ticks))
+    };
+    let Some((a1, t1)) = sample() else { return false };
+    std::thread::sleep(Duration::from_secs(1));
+    let Some((a2, t2)) = sample() else { return false };
+    std::thread::sleep(Duration::from_secs(1));
+    let Some((a3, t3)) = sample() else { return false };
+    a1 && a2 && a3 && t1 == t2 && t2 == t3
+}
+
 pub fn run_workers<P: Property>(tier: Tier, seed: u64, summary: &mut RunSummary) {
     let nworkers = P::workers(tier).max(1);
     let outdir = tempfile::Builder::new()
@@ -787,6 +849,28 @@ pub fn run_workers<P: Property>(tier: Tier, seed: u64, summary: &mut RunSummary)
                     let m = std::fs::metadata(&inflight).and_then(|m| m.modified()).ok();
                     if m != last_progress[w].1 {
                         last_progress[w] = (Instant::now(), m);
+                    } else if last_progress[w].0.elapsed() > Duration::from_secs(20) && process_blocked_forever(child.id()) {
+                        // deadlock of the code under test (or of the harness): the in-flight case is the witness
+                        let _ = child.kill();
+                        let _ = child.wait();
+                        children[w] = None;
+                        if let Some(case) = std::fs::read(&inflight).ok().and_then(|b| serde_json::from_slice::<serde_json::Value>(&b).ok()) {
+                            let saved = SavedFailure {
+                                property: P::ID.into(),
+                                sig: "blocked-forever".into(),
+                                msg: "every thread of the worker process waits on a futex without timeout and the process consumes no cpu: deadlock while running this case".into(),
+                                case,
+                                note: "in-flight case of a deadlocked worker (not shrunk)".into(),
+                            };
+                            if known_sigs(P::ID).contains(&saved.sig) {
+                                *summary.merged.excluded_known.entry(saved.sig).or_default() += 1;
+                            } else {
+                                let p = save_replay(P::ID, &format!("s{seed}-w{w}-blocked"), &saved);
+                                println!("VIOLATION property={} replay={}", P::ID, p.display());
+                                eprintln!("  {}", saved.msg);
+                                summary.violations.push((saved.sig.clone(), p));
+                            }
+                        }
                     } else if last_progress[w].0.elapsed() > timeout {
                         let _ = child.kill();
                         let _ = child.wait();
